@@ -328,10 +328,10 @@ func c11Arrange(asc []time.Duration, order int) []time.Duration {
 
 func TestC11(t *testing.T) {
 	R := ev.New("C11")
-	R.Rule = "(c) constant inputs for every value 1..V ns and around every power of 2 and 10; (a) every sequence of length 1..6 over {1,2,3,1e3,1e6,1e12}ns, with and without a Close after every Add; (b) 8 structured families (constant, ramp, bimodal with a 1e9 gap at the 50/90/95/99% split, geometric plateaus, saw-tooth) for every n in 1..N (quick: additionally n=500,600..3000) and two-valued inputs with every split k/n for n<=60, each in sorted, reversed and interleaved arrival order; a case is distinct+non-trivial when its (arrival sequence, close mode) differs and it holds at least two different latencies (otherwise no percentile can be mis-ordered or mis-ranked); (d) a lattice of data sets at 2^50..2^53 ns (3 base exponents x 8 offsets x spread 2^1..2^30 x 7 (13) sizes x 1 (4) congruential generators) through the hdrplot report and the order check; (e) sets of 17 000 and 40 000 (thorough up to 300 000) latencies arriving with a period of 2..5 (targets hit round robin, one of them slow)"
+	R.Rule = "(c) constant inputs for every value 1..V ns and around every power of 2 and 10; (a) every sequence of length 1..6 over {0,1,2,3,1e3,1e6,1e12}ns, with and without a Close after every Add; (b) 8 structured families (constant, ramp, bimodal with a 1e9 gap at the 50/90/95/99% split, geometric plateaus, saw-tooth) for every n in 1..N (quick: additionally n=500,600..3000) and two-valued inputs ({1us,1s} and {0,1ms}) with every split k/n for n<=60, each in sorted, reversed and interleaved arrival order; a case is distinct+non-trivial when its (arrival sequence, close mode) differs and it holds at least two different latencies (otherwise no percentile can be mis-ordered or mis-ranked); (d) a lattice of data sets at 2^50..2^53 ns (3 base exponents x 8 offsets x spread 2^1..2^30 x 7 (13) sizes x 1 (4) congruential generators) through the hdrplot report and the order check; (e) sets of 17 000 and 40 000 (thorough up to 300 000) latencies arriving with a period of 2..5 (targets hit round robin, one of them slow)"
 	R.Assume("random (uniform / log-normal) draws are outside a bounded exhaustive check; every n up to N is run for each structured family instead")
 	R.Assume("rank of an observed latency = its position in the sorted input counted from 0 or from 1, whichever is favourable, and with ties the favourable position (weaker reading: the statement fixes neither; the mid-point interpolation the estimator performs exactly for small n is within the bound for origin 0 and up to 0.5 rank outside for origin 1)")
-	alpha := []time.Duration{1, 2, 3, 1e3, 1e6, 1e12}
+	alpha := []time.Duration{0, 1, 2, 3, 1e3, 1e6, 1e12} // (0: a hit answered within the clock's resolution)
 	N := ev.Pick(400, 3000)
 	R.Set("N", N)
 	R.Set("alphabet_ns", alpha)
@@ -427,7 +427,7 @@ func TestC11(t *testing.T) {
 	// ---- (b) structured families, every n --------------------------------------
 	fams := c11Families()
 	type job struct {
-		fam  int // -1: two-valued
+		fam  int // -1: two-valued {1us, 1s}, -2: two-valued {0, 1ms}
 		n, k int
 	}
 	var jobs []job
@@ -437,7 +437,7 @@ func TestC11(t *testing.T) {
 		}
 		if n <= 60 {
 			for k := 0; k <= n; k++ {
-				jobs = append(jobs, job{-1, n, k})
+				jobs = append(jobs, job{-1, n, k}, job{-2, n, k})
 			}
 		}
 	}
@@ -468,12 +468,16 @@ func TestC11(t *testing.T) {
 			asc = fams[j.fam].gen(j.n)
 			name = fams[j.fam].name
 		} else {
+			lo, hi := time.Microsecond, time.Second
+			if j.fam == -2 {
+				name, lo, hi = "two-valued-with-zero", 0, time.Millisecond
+			}
 			asc = make([]time.Duration, j.n)
 			for i := range asc {
 				if i < j.k {
-					asc[i] = time.Microsecond
+					asc[i] = lo
 				} else {
-					asc[i] = time.Second
+					asc[i] = hi
 				}
 			}
 		}
